@@ -148,7 +148,26 @@ def gen_case(rng, base):
             break
         budget -= cost
         txns.append(t)
-    if txns and rng.random() < 0.25:
+    shape = None
+    if txns and budget > 60 and rng.random() < 0.12:
+        # shape "revoked tail": the log ends with a transaction of 8-20 blocks that the very last
+        # transaction revokes completely - replay reads many journal blocks after its last write
+        n = rng.randrange(8, 21)
+        blks = []
+        for b in rng.sample(pool, min(n, len(pool))):
+            seedc += 1
+            blks.append((b, pattern(seedc, bs)))
+        t1 = J.Txn(blocks=blks)
+        t2 = J.Txn(blocks=[], revokes=sorted(b for b, _ in blks))
+        if rng.random() < 0.5:
+            seedc += 1
+            t2.blocks = [(rng.choice(pool), pattern(seedc, bs))]
+            if t2.blocks[0][0] in t2.revokes:
+                t2.blocks = []
+        if t2.blocks or True:
+            txns += [t1, t2]
+            shape = "revoked-tail"
+    elif txns and rng.random() < 0.25:
         txns[-1].committed = False
     r = rng.random()
     if r < 0.3:
@@ -162,8 +181,11 @@ def gen_case(rng, base):
     same_uuid = rng.choice(["mixed", "mixed", "all", "none"])
     damage = rng.choice(["none", "none", "none", "stale-next", "flip-data", "flip-commit", "flip-desc",
                          "flip-revoke", "zero-tail", "missing-commit-mid"])
+    if shape:
+        damage = rng.choice(["none", "none", "stale-next"])
     return {"txns": txns, "start": start, "first_tid": first_tid, "compat": compat, "incompat": incompat,
-            "same_uuid": same_uuid, "damage": damage, "csum": csum, "pool": pool, "filepool": filepool}
+            "same_uuid": same_uuid, "damage": damage, "csum": csum, "pool": pool, "filepool": filepool,
+            "shape": shape}
 
 
 def expectations(case, txns, options):
